@@ -473,7 +473,8 @@ def fmtFObs (I : Instance) (id : Nat) (o : FObs) : String :=
   | .history => s!"{id}:history " ++ " ".intercalate (o.hist.map (fmtSOp I))
   | .makespanReward => s!"{id}:makespan_reward {fmtInts o.rewards} cur {o.curMakespan}"
   | .idleReward => s!"{id}:idle_reward {fmtInts o.rewards}"
-  | .composite => s!"{id}:composite({fmtNats o.parts}) {cols}"
+  | .composite => s!"{id}:composite({fmtNats o.parts}) {cols} names " ++ " ".intercalate (o.names.map fun (ft, ns) =>
+      ftName ft ++ "=" ++ ",".intercalate ns)
   | .residual => s!"{id}:residual({fmtNats o.parts}) {fmtGraph o.graph}"
   | k => s!"{id}:{fkindName k} {cols}"
 
